@@ -202,7 +202,10 @@ pub fn run(a: &[&str]) -> String {
             },
             "rm" => {
                 let base = window() + BASE_OFF;
-                let (units, grain, heads, ppb, limit_pages) = (i(a[2]), i(a[3]), i(a[4]), i(a[5]), unum(a[6]));
+                let (units, grain, heads) = (i(a[2]), i(a[3]), i(a[4]));
+                // `-1` = the code's own derivation (what Map64::create_parent_freelist passes)
+                let ppb = if a[5] == "-1" { RawMemoryFreeList::default_block_size(units, heads) } else { i(a[5]) };
+                let limit_pages = if a[6] == "-1" { RawMemoryFreeList::size_in_pages(units, heads) as usize } else { unum(a[6]) };
                 let b = unsafe { Address::from_usize(base) };
                 L::Rm(Box::new(mmtk::verif::ds::new_raw_memory_freelist(
                     b,
